@@ -580,9 +580,10 @@ func run(c *vlib.Ctx) {
 	}
 }
 
-// contexts: the enumerated token sequence is used alone, followed by `|` (so that all of it is executed), and as
-// the parameters of a safe command followed by `|`.
-var contexts = [][2][]string{{nil, nil}, {nil, {"|"}}, {{"out", " "}, {"|"}}}
+// contexts: the enumerated token sequence is used alone, followed by `|` (so that all of it is executed), as
+// the parameters of a safe command followed by `|`, and as the parameters that follow a plain-word parameter of a
+// block-running safe command (`try x <seq>|`).
+var contexts = [][2][]string{{nil, nil}, {nil, {"|"}}, {{"out", " "}, {"|"}}, {{"try", " ", "x", " "}, {"|"}}}
 
 func tokIndex(t string) int {
 	for i, x := range tokens {
